@@ -61,6 +61,20 @@ fold_unit = Schema('C01.fold_unit', [('G', GRAMMAR.sort()), ('pt', PT.sort()), (
                    _fold_unit, induction='k', doc='a product of probabilities stays in [0,1] (so P(root) <= max_probability = 1.0)')
 
 
+def _init_base_hint(L):
+    """inside the outer loop of initalize_base_structures: the root built in this iteration has P <= 1."""
+    G = g_of(L.self)
+    base = L.self.fields['base'].term
+    e = z3.Select(BASE.arr(base), L.i)
+    repl = BASE_ELEM.get(e, 'replacements')
+    pt = RootPt(repl, TList(TStr).len(repl))
+    return [fold_unit.inst(G, pt, BASE_ELEM.get(e, 'prob'), PT.len(pt))]
+
+
+gc.HOOKS['probs_unit'] = lambda G: z3.And(wf_grammar(G))
+gc.HOOKS['init_base_hint'] = _init_base_hint
+
+
 # ------------------------------------------------------------------ properties of Kids (induction on k)
 def item_ok(G, it, b, n, pprob):
     pt = PTITEM.get(it, 'pt')
@@ -134,45 +148,58 @@ def queue_bound(bag, M):
     return z3.ForAll([x], z3.Implies(z3.Select(bag, x) > 0, fv(qprob(x)) <= fv(M)), patterns=[z3.Select(bag, x)])
 
 
-def next_step_lemmas():
-    """From the *contract* of PcfgQueue.next (not its body): the order invariant is preserved
-    and the popped probability never exceeds the previous one."""
-    from pyvc.runner import Lemma
+def counts_nonneg(bag):
+    x = z3.Const('x!cn', QITEM.sort())
+    return z3.ForAll([x], z3.Select(bag, x) >= 0, patterns=[z3.Select(bag, x)])
+
+
+def _queue_step_parts(G, H, M0, rt, H2, M1):
+    """hypotheses = the *contract* of PcfgQueue.next (requires + postconditions of the popped case),
+    instantiated on the given terms; conclusions = what the session loop needs."""
     con = Contract.registry[PQ + ':PcfgQueue.next']
-    selfv = fresh(QUEUE_OBJ, 'q0')
-    G = g_of(selfv.fields['pcfg'])
-    H = selfv.fields['p_queue'].term
-    M0 = selfv.fields['max_probability'].term
+    pcfg = PObj(gc.MOD + ':PcfgGrammar', {'grammar': ZV(GRAMMAR, G)})
+    selfv = PObj(PQ + ':PcfgQueue', {'pcfg': pcfg, 'p_queue': ZV(BAG, H), 'max_probability': ZV(TF, M0)})
+    after = PObj(PQ + ':PcfgQueue', {'pcfg': pcfg, 'p_queue': ZV(BAG, H2), 'max_probability': ZV(TF, M1)})
+    res = unbox(rt, PTITEM)
     c0 = Ctx({'self': selfv})
     req = [b for _, b in con.requires(c0)]
-    case = con.cases[1]
-    res = case.make(c0)
-    after_self = selfv.with_field('p_queue', fresh(BAG, "H'")).with_field('max_probability', fresh(TF, "M'"))
-    c1 = Ctx({'self': selfv}, result=res, after={'self': after_self})
-    post = [b for _, b in case.post(c1)]
-    rt = box(res, PTITEM)
+    c1 = Ctx({'self': selfv}, result=res, after={'self': after})
+    post = [b for _, b in con.cases[1].post(c1)]
+    hyps = req + post + wf_grammar(G) + [queue_bound(H, M0)]
+    return hyps
+
+
+def _queue_step(G, H, M0, rt, H2, M1):
+    pt = PTITEM.get(rt, 'pt')
+    b = PTITEM.get(rt, 'base_prob')
+    concl = z3.And(fv(PTITEM.get(rt, 'prob')) <= fv(M0),          # C01.order
+                   queue_bound(H2, M1),                            # C01.queue.inv
+                   in_bag_all_wf(G, H2), counts_nonneg(H2),        # C01.queue.rep (precondition of the next call)
+                   PTITEM.get(rt, 'prob') == P(G, pt, b),          # C01.attached_prob
+                   wf_pt(G, pt), PT.len(pt) >= 0)
+    return _queue_step_parts(G, H, M0, rt, H2, M1), concl
+
+
+def _queue_step_uses(G, H, M0, rt, H2, M1):
     pt = PTITEM.get(rt, 'pt')
     b = PTITEM.get(rt, 'base_prob')
     pprob = PTITEM.get(rt, 'prob')
     kids = Kids(G, pt, b, pprob, PT.len(pt))
-    H2 = after_self.fields['p_queue'].term
-    M1 = after_self.fields['max_probability'].term
-    common = req + post + wf_grammar(G) + [queue_bound(H, M0)]
     H1 = bag_del(H, qi(rt))
-    uses = [kids_props.inst(G, pt, b, pprob, PT.len(pt)),
+    return [kids_props.inst(G, pt, b, pprob, PT.len(pt)),
             addall_bound.inst(H1, kids, pprob, PTITEMS.len(kids)),
             addall_rep.inst(G, H1, kids, PTITEMS.len(kids))]
-    out = [
-        Lemma('C01.order', common, fv(PTITEM.get(rt, 'prob')) <= fv(M0),
-              'each emitted pre-terminal is no more probable than the previous one'),
-        Lemma('C01.queue.inv', common + uses, queue_bound(H2, M1),
-              'every queued item is <= max_probability after next()'),
-        Lemma('C01.queue.rep', common + uses, in_bag_all_wf(G, H2),
-              'queued items stay well-formed nodes carrying their own P (precondition of the following next())'),
-        Lemma('C01.attached_prob', common, PTITEM.get(rt, 'prob') == P(G, pt, b),
-              'the probability returned with a group is the left-to-right product of its pt'),
-    ]
-    return out
+
+
+queue_step = Schema('C01.queue_step',
+                    [('G', GRAMMAR.sort()), ('H', BAG.sort()), ('M0', T.F), ('rt', PTITEM.sort()), ('H2', BAG.sort()), ('M1', T.F)],
+                    _queue_step, uses=_queue_step_uses,
+                    doc="from next()'s contract: popped probability <= previous max (C01.order), every queued item <= the new max "
+                        '(C01.queue.inv), queue representation invariant kept (C01.queue.rep), attached probability is P(pt)')
+
+
+def next_step_lemmas():
+    return queue_step.lemmas()
 
 
 def all_c01_lemmas():
